@@ -556,10 +556,18 @@ impl Storage {
             )
             .expect("batch put should be ok");
         let tx_hash = tx.calc_tx_hash();
-        let tx_index = u32::max_value();
-        let key = Key::TxHash(&tx_hash).into_vec();
-        let value = Value::Transaction(block_number, tx_index as TxIndex, tx);
-        batch.put_kv(key, value).expect("batch put should be ok");
+        // Do not overwrite a transaction which was stored by the block filter with its real
+        // index in the block: the cells of its outputs are indexed by that index.
+        let is_indexed = self
+            .get_transaction(&tx_hash)
+            .map(|(_, tx_index, _)| tx_index != u32::max_value())
+            .unwrap_or(false);
+        if !is_indexed {
+            let tx_index = u32::max_value();
+            let key = Key::TxHash(&tx_hash).into_vec();
+            let value = Value::Transaction(block_number, tx_index as TxIndex, tx);
+            batch.put_kv(key, value).expect("batch put should be ok");
+        }
         batch.commit().expect("batch commit should be ok");
     }
 
